@@ -296,6 +296,74 @@ def replace_laws(part, t, w, seed):
     return n
 
 
+def raw_constant_laws(part):
+    """constants of EVERY fixed-width integer class (signed and unsigned, 1..128 bits; the neutral form only covers the
+    unsigned 1/8/16/32/64-bit ones), alone and inside each node kind: copy / visit(identity) / replace_expr(empty map)
+    return an equal expression whose constant has the same class and value, and equal hashes"""
+    X = irsem.X()
+    from miasmx.tools import modint as M
+    classes = [c for c in (getattr(M, n, None) for n in ('uint1', 'uint8', 'uint16', 'uint32', 'uint64', 'uint128',
+                                                          'int8', 'int16', 'int32', 'int64', 'int128')) if c is not None]
+    for cls in classes:
+        size = cls.size
+        vals = sorted(set([0, 1, 3, (1 << (size - 1)) - 1, 1 << (size - 1), (1 << size) - 1, -1, -8]))
+        for v in vals:
+            def mk():
+                return X.ExprInt(cls(v))
+            idw = X.ExprId('a', size)
+            builders = [('int', mk),
+                        ('op', lambda: X.ExprOp('+', X.ExprId('a', size), mk())),
+                        ('cond', lambda: X.ExprCond(X.ExprId('c', 1), mk(), X.ExprId('a', size))),
+                        ('compose', lambda: X.ExprCompose([(mk(), 0, size), (X.ExprId('a', size), size, 2 * size)])),
+                        ('aff', lambda: X.ExprAff(X.ExprId('a', size), mk()))]
+            if size >= 8:
+                builders.append(('slice', lambda: X.ExprSlice(mk(), 0, size // 2)))
+            if size == 32:
+                builders.append(('mem', lambda: X.ExprMem(mk(), 8)))
+            for kname, b in builders:
+                wit = {'raw': [cls.__name__, v, kname]}
+                part.n += 1
+                try:
+                    e = b()
+                    ref = str(e), [(type(x.arg).__name__, int(x.arg)) for x in raw_ints(e, X)]
+                    outs = [('copy', e.copy()), ('visit-identity', e.visit(lambda x: x))]
+                    if kname != 'aff':
+                        outs.append(('replace-empty', e.replace_expr({})))
+                    bad = None
+                    for law, r in outs:
+                        got = str(r), [(type(x.arg).__name__, int(x.arg)) for x in raw_ints(r, X)]
+                        if not (r == e) or got != ref or hash(r) != hash(e):
+                            bad = (law, 'ExprInt(%s(%d)) inside %s: %s gives %s %s, original %s %s' % (cls.__name__, v, kname, law, got[0], got[1], ref[0], ref[1]))
+                            break
+                except Exception as ex:
+                    bad = ('exception:%s' % type(ex).__name__, 'ExprInt(%s(%d)) inside %s: %r' % (cls.__name__, v, kname, ex))
+                if bad:
+                    part.violation('law=raw-constant:%s class=%s%s' % (bad[0], 'signed' if cls.__name__.startswith('int') else 'unsigned', size),
+                                   bad[1], wit)
+                else:
+                    part.keys.add(core.h64(('raw', cls.__name__, v, kname)))
+
+
+def raw_ints(e, X):
+    out = []
+
+    def rec(x):
+        if isinstance(x, X.ExprInt):
+            out.append(x)
+        for a in ('arg', 'cond', 'src1', 'src2', 'src', 'dst', 'segm'):
+            c = getattr(x, a, None)
+            if isinstance(c, X.Expr):
+                rec(c)
+        if isinstance(x, X.ExprOp):
+            for c in x.args:
+                rec(c)
+        if isinstance(x, X.ExprCompose):
+            for c in x.args:
+                rec(c[0])
+    rec(e)
+    return out
+
+
 def widths(tier):
     return (8, 32) if tier == 'quick' else (8, 32, 16, 64, 1)
 
@@ -303,6 +371,8 @@ def widths(tier):
 def shard_unary(s, ns, tier, seed):
     irsem.SEGAWARE = True
     part = core.Part()
+    if s == 0:
+        raw_constant_laws(part)
     for w in widths(tier):
         U = unary_pool(w, tier)
         PP = set(pair_pool(w))
